@@ -178,6 +178,110 @@ fn message_json(fs: &LogFs, msg: &diagn::Message) -> Value {
     })
 }
 
+// ---------------------------------------------------------------------------
+// The syntax tree of a text as the parser built it, in the shape Syntax.tla
+// builds its own (names and source pieces as code points).
+
+fn cps(s: &str) -> Value {
+    json!(s.chars().map(|c| c as u32).collect::<Vec<u32>>())
+}
+
+fn span_text(src: &str, span: &diagn::Span) -> Value {
+    match span.location() {
+        Some((a, b)) if a <= b && b <= src.len() && src.is_char_boundary(a) && src.is_char_boundary(b) => cps(&src[a..b]),
+        _ => json!([]),
+    }
+}
+
+fn expr_json(src: &str, e: &customasm::expr::Expr) -> Value {
+    use customasm::expr::{BinaryOp, Expr, UnaryOp, Value as V};
+    match e {
+        Expr::Literal(span, v) => match v {
+            V::Integer(_) => json!({"k": "num", "text": span_text(src, span)}),
+            V::Bool(b) => json!({"k": "bool", "b": b}),
+            V::String(st) => json!({"k": "str", "cps": cps(&st.utf8_contents)}),
+            _ => json!({"k": "otherlit"}),
+        },
+        Expr::Variable(_, lvl, path) => json!({"k": "var", "lvl": lvl, "path": path.iter().map(|p| cps(p)).collect::<Vec<_>>()}),
+        Expr::UnaryOp(_, _, op, inner) => json!({"k": "un", "op": match op { UnaryOp::Neg => "neg", UnaryOp::Not => "not" }, "e": expr_json(src, inner)}),
+        Expr::BinaryOp(_, _, op, l, r) => json!({"k": "bin", "op": match op {
+                BinaryOp::Assign => "assign", BinaryOp::Add => "add", BinaryOp::Sub => "sub", BinaryOp::Mul => "mul",
+                BinaryOp::Div => "div", BinaryOp::Mod => "mod", BinaryOp::Shl => "shl", BinaryOp::Shr => "shr",
+                BinaryOp::And => "and", BinaryOp::Or => "or", BinaryOp::Xor => "xor", BinaryOp::Eq => "eq",
+                BinaryOp::Ne => "ne", BinaryOp::Lt => "lt", BinaryOp::Le => "le", BinaryOp::Gt => "gt",
+                BinaryOp::Ge => "ge", BinaryOp::LazyAnd => "land", BinaryOp::LazyOr => "lor", BinaryOp::Concat => "concat" },
+            "l": expr_json(src, l), "r": expr_json(src, r)}),
+        Expr::TernaryOp(_, c, t, f) => json!({"k": "tern", "c": expr_json(src, c), "t": expr_json(src, t), "f": expr_json(src, f)}),
+        Expr::Slice(_, _, left, right, inner) => json!({"k": "slice", "e": expr_json(src, inner), "l": expr_json(src, left), "r": expr_json(src, right)}),
+        Expr::SliceShort(_, _, size, inner) => json!({"k": "sshort", "e": expr_json(src, inner), "n": expr_json(src, size)}),
+        Expr::Block(_, es) => json!({"k": "block", "es": es.iter().map(|x| expr_json(src, x)).collect::<Vec<_>>()}),
+        Expr::Call(_, f, args) => json!({"k": "call", "f": expr_json(src, f), "args": args.iter().map(|x| expr_json(src, x)).collect::<Vec<_>>()}),
+        Expr::Asm(_, ast) => json!({"k": "asm", "nodes": nodes_json(src, &ast.nodes)}),
+    }
+}
+
+fn opt_expr_json(src: &str, e: &Option<customasm::expr::Expr>) -> Value {
+    match e {
+        Some(e) => json!({"some": true, "e": expr_json(src, e)}),
+        None => json!({"some": false}),
+    }
+}
+
+fn nodes_json(src: &str, nodes: &Vec<asm::AstAny>) -> Vec<Value> {
+    nodes.iter().map(|n| node_json(src, n)).collect()
+}
+
+fn node_json(src: &str, n: &asm::AstAny) -> Value {
+    use asm::AstAny as A;
+    match n {
+        A::DirectiveAddr(d) => json!({"k": "addr", "e": expr_json(src, &d.expr)}),
+        A::DirectiveAlign(d) => json!({"k": "align", "e": expr_json(src, &d.expr)}),
+        A::DirectiveAssert(d) => json!({"k": "assert", "e": expr_json(src, &d.condition_expr)}),
+        A::DirectiveBank(d) => json!({"k": "bank", "name": cps(&d.name)}),
+        A::DirectiveBankdef(d) => json!({"k": "bankdef", "name": cps(&d.name),
+            "bits": opt_expr_json(src, &d.addr_unit), "labelalign": opt_expr_json(src, &d.label_align),
+            "addr": opt_expr_json(src, &d.addr_start), "addr_end": opt_expr_json(src, &d.addr_end),
+            "size": opt_expr_json(src, &d.addr_size), "outp": opt_expr_json(src, &d.output_offset), "fill": d.fill}),
+        A::DirectiveBits(_) => json!({"k": "bits"}),
+        A::DirectiveData(d) => json!({"k": "data", "w": match d.elem_size { Some(w) => w as i64, None => -1 },
+            "es": d.elems.iter().map(|x| expr_json(src, x)).collect::<Vec<_>>()}),
+        A::DirectiveFn(d) => json!({"k": "fn", "name": cps(&d.name), "params": d.params.iter().map(|p| cps(&p.name)).collect::<Vec<_>>(),
+            "body": expr_json(src, &d.body)}),
+        A::DirectiveIf(d) => json!({"k": "if", "c": expr_json(src, &d.condition_expr), "then": nodes_json(src, &d.true_arm.nodes),
+            "haselse": d.false_arm.is_some(),
+            "else": match &d.false_arm { Some(a) => nodes_json(src, &a.nodes), None => Vec::new() }}),
+        A::DirectiveInclude(d) => json!({"k": "include", "file": cps(&d.filename)}),
+        A::DirectiveLabelAlign(d) => json!({"k": "labelalign", "e": expr_json(src, &d.expr)}),
+        A::DirectiveNoEmit(_) => json!({"k": "noemit"}),
+        A::DirectiveOnce(_) => json!({"k": "once"}),
+        A::DirectiveRes(d) => json!({"k": "res", "e": expr_json(src, &d.expr)}),
+        A::DirectiveRuledef(d) => json!({"k": "ruledef", "sub": d.is_subruledef, "hasname": d.name.is_some(),
+            "name": cps(d.name.as_deref().unwrap_or("")),
+            "rules": d.rules.iter().map(|r| json!({
+                "pat": r.pattern.iter().map(|p| match p {
+                    asm::AstRulePatternPart::Whitespace => json!({"p": "ws"}),
+                    asm::AstRulePatternPart::Exact(c) => json!({"p": "exact", "c": *c as u32}),
+                    asm::AstRulePatternPart::Parameter(q) => {
+                        let (ty, n, tn) = match &q.typ {
+                            asm::AstRuleParameterType::Unspecified => ("none", 0, String::new()),
+                            asm::AstRuleParameterType::Ruledef(s) => ("sub", 0, s.clone()),
+                            asm::AstRuleParameterType::Unsigned(n) => ("u", *n, String::new()),
+                            asm::AstRuleParameterType::Signed(n) => ("s", *n, String::new()),
+                            asm::AstRuleParameterType::Integer(n) => ("i", *n, String::new()),
+                        };
+                        json!({"p": "par", "name": cps(&q.name), "ty": ty, "n": n, "tn": cps(&tn)})
+                    }
+                }).collect::<Vec<_>>(),
+                "e": expr_json(src, &r.expr)})).collect::<Vec<_>>()}),
+        A::Instruction(d) => json!({"k": "instr", "src": cps(&d.src)}),
+        A::Symbol(d) => match &d.kind {
+            asm::AstSymbolKind::Label => json!({"k": "label", "lvl": d.hierarchy_level, "name": cps(&d.name)}),
+            asm::AstSymbolKind::Constant(c) => json!({"k": "const", "lvl": d.hierarchy_level, "name": cps(&d.name), "noemit": d.no_emit,
+                "e": expr_json(src, &c.expr)}),
+        },
+    }
+}
+
 fn events_json(lines: Vec<String>) -> Vec<Value> {
     lines
         .into_iter()
@@ -441,6 +545,35 @@ fn run_job(job: &Value, stdf: &Vec<(String, Vec<u8>)>) -> Value {
                 res.push(json!(toks));
             }
             o.insert("lexed".into(), json!(res));
+        }
+
+        "parse" => {
+            // parse each text on its own (no includes resolved, nothing declared): the tree, or the first error
+            let mut res = Vec::new();
+            for text in str_list(job.get("texts")) {
+                let mut fs2 = LogFs::new();
+                fs2.add("main.asm", text.as_bytes().to_vec());
+                let r = std::panic::catch_unwind(std::panic::AssertUnwindSafe(|| {
+                    let mut rep2 = diagn::Report::new();
+                    let mut walker = customasm::syntax::Walker::new(&text, 0, 0);
+                    let parsed = asm::parser::parse(&mut rep2, &mut walker);
+                    let msgs = rep2.verif_messages();
+                    let first = msgs.iter().find(|m| matches!(m.kind, diagn::MessageKind::Error));
+                    let (descr, at) = match first {
+                        Some(m) => (m.descr.clone(), m.span.as_ref().and_then(|sp| sp.location()).map(|(a, _)| text[..a.min(text.len())].chars().count() as i64).unwrap_or(-1)),
+                        None => (String::new(), -1),
+                    };
+                    match parsed {
+                        Ok(ast) => json!({"ok": true, "nerrors": msgs.len(), "nodes": nodes_json(&text, &ast.nodes)}),
+                        Err(()) => json!({"ok": false, "nerrors": msgs.len(), "descr": descr, "at": at}),
+                    }
+                }));
+                res.push(match r {
+                    Ok(v) => v,
+                    Err(_) => json!({"panic": true}),
+                });
+            }
+            o.insert("parsed".into(), json!(res));
         }
 
         "navigate" => {
